@@ -315,9 +315,9 @@ pub fn run(cfg: &Cfg) -> Report {
     let mut total = Report::new();
     let plan: Vec<(u64, u64)> = vec![
         (0, if quick { 3 * 900 } else { 3 * 70001 }),
-        (1, cfg.n(3 * 64 * 400, 3 * 64 * 2000)),
-        (2, cfg.n(20_000, 300_000)),
-        (3, cfg.n(400_000, 5_000_000)),
+        (1, cfg.n(3 * 64 * 400, 3 * 64 * 20000)),
+        (2, cfg.n(20_000, 3_000_000)),
+        (3, cfg.n(400_000, 50_000_000)),
     ];
     for (class, n) in plan {
         if !cfg.wants(class) {
